@@ -9,7 +9,8 @@
 (*   - a rotating-stride sample of the chains of three related calls;      *)
 (*   - every pair <<resolve, table>> and <<resolve, resolve>> over the     *)
 (*     same table (a name resolved, then the table read);                  *)
-(*   - every pair of text conversions (printing, parsing).                 *)
+(*   - every pair of text conversions (printing, parsing) and every pair   *)
+(*     of architecture lookups.                                            *)
 (* The driver draws a seeded, stratified sample from the file.             *)
 EXTENDS Hist, Json, SequencesExt
 CONSTANTS OutFile, Stride, Offset, Triples
@@ -27,7 +28,8 @@ Hists(dummy) ==
   \cup {<<CallSeq[i], CallSeq[j]>> : <<i, j>> \in {<<x, y>> \in (1..N) \X (1..N) :
             CallSeq[x].op = "resolve" /\ CallSeq[y].op \in {"resolve", "table"} /\ CallSeq[x].arch = CallSeq[y].arch}}
   \cup {<<CallSeq[i], CallSeq[j]>> : <<i, j>> \in {<<x, y>> \in (1..N) \X (1..N) :
-            CallSeq[x].op \in {"text", "parse"} /\ CallSeq[y].op \in {"text", "parse"}}}
+            \/ (CallSeq[x].op \in {"text", "parse"} /\ CallSeq[y].op \in {"text", "parse"})
+            \/ (CallSeq[x].op = "getinfo" /\ CallSeq[y].op = "getinfo")}}
   \cup (IF Triples
         THEN {<<CallSeq[i], CallSeq[j], CallSeq[k]>> : <<i, j, k>> \in {<<x, y, z>> \in PolIdx \X PolIdx \X PolIdx :
                  Related(CallSeq[x], CallSeq[y]) /\ Related(CallSeq[y], CallSeq[z]) /\ Pick(((x * N + y) * N + z) \div 7)}}
